@@ -134,7 +134,7 @@ package keeper
 //@ pred wsumBoundOf(x, dst, i, b) = wsumBound(x, elemRow(dst.Shares), heapOf("types.DestinationShare", "Share"), off(dst.Shares), i, len(dst.Shares), b)
 //@ // what Account.Validate established for a destination that is paid out (and that it is not the distributor's own main account)
 //@ pred accountPayoutOK(acc) = (acc.Type == "MODULE_ACCOUNT" ==> moduleExists(acc.Id) && modaddr(acc.Id) != MAIN())
-//@   && (acc.Type != "MODULE_ACCOUNT" && acc.Type != "INTERNAL_ACCOUNT" ==> fromBech32(acc.Id) != MAIN())
+//@   && (acc.Type != "MODULE_ACCOUNT" && acc.Type != "INTERNAL_ACCOUNT" && acc.Type != "MAIN" ==> fromBech32(acc.Id) != MAIN())
 //@ pred destinationAccountsOK(dst) = accountPayoutOK(dst.PrimaryShare)
 //@   && (forall k: int :: {dst.Shares[k]} 0 <= k && k < len(dst.Shares) ==> accountPayoutOK(dst.Shares[k].Destination))
 //@ pred distAllocated(ds) = forall k: int :: {ds[k]} 0 <= k && k < len(ds) ==> ds[k] != nil && allocated(ds[k])
